@@ -129,7 +129,8 @@ def wl_likelihood(perm_orders=False, only_long=False):
             # may not compute in, or return, a narrower type
             Xq = np.round(X * 4)
             for (dn, Xd) in (("int64", Xq.astype(np.int64)), ("int32", Xq.astype(np.int32)),
-                             ("float32", (Xq / 4).astype(np.float32))):
+                             ("float32", (Xq / 4).astype(np.float32)),
+                             ("bigendian", Xq.astype(np.dtype(np.float64).newbyteorder()))):
                 m = make_model(thetas, means, W, K)
                 try:
                     t = likelihood.all_points_all_clusters_log_likelihood(m, Xd)
@@ -321,7 +322,7 @@ def run(ctx):
                     wantq[i, k], scaleq[i, k] = refs.gaussian_logpdf_precision(Xq[i], means[k], thetas[k])
             sources = [(mode, outs[mode]["lik"]) for mode in MODES] + \
                       [(f"jit/{n}threads", tl) for n, tl in ref.get("threads", {}).items()]
-            for dn in ("int64", "int32", "float32"):
+            for dn in ("int64", "int32", "float32", "bigendian"):
                 key = ("dtype", NW, K, T, dn)
                 for who, src in sources:
                     ev += 1
@@ -409,7 +410,7 @@ def run(ctx):
         "{0,1,3}^(T*K), T*K<=6 (thorough 8) x 12 betas (identical labels and cost) and over the real alphabet "
         "{0.1,0.7,-1.3,1e-9,1e9} for T*K<=4 (thorough <=6) x 3 betas (identical labels, cost within 1e-12) and over {0,1,nan} / {0,1,inf} for T*K<=4 (identical, NaN == NaN); (ii) "
         "likelihood table for NW in {1,2,6,40} (thorough +100) x K in {1,2,3} x T in {1,2,5,17} (+600 random rows and 601 sample-and-hold rows for two shapes, repeated 6 times free-running per thread count) x layouts {C, Fortran, strided view} "
-        "and, for T in {5,17}, int64/int32/float32 stacked data (float64 table within tolerance in every mode) and finite inputs with a non-finite log-density (a 1e200 row, an 8e307 row, a zero precision matrix: same outcome, same non-finite pattern in every mode), all "
+        "and, for T in {5,17}, int64/int32/float32/byte-swapped float64 stacked data (float64 table within tolerance in every mode) and finite inputs with a non-finite log-density (a 1e200 row, an 8e307 row, a zero precision matrix: same outcome, same non-finite pattern in every mode), all "
         "in every mode and for numba thread counts {1,2,4,8,16}: within 1e-10 x scale of the Cholesky log-density, "
         "bitwise equal across thread counts; interpreted modes with the parallel loop's range replaced by every "
         "permutation (T<=5) / 3 structured orders: bitwise equal; (iii) complete scripted runs for every 4th "
